@@ -41,10 +41,11 @@ const (
 	evCompact0
 	evCompact1
 	evRestartFollower
+	evWarmCache
 	nEv
 )
 
-var evName = []string{"leader:put(new key)", "leader:put(a)", "leader:delete(a)", "leader:delete-range(a..)", "leader:toggle-txn", "leader:put(100KiB)", "follower:poll", "follower:recover-from-snapshot", "leader:snapshot+compact(keep 0)", "leader:snapshot+compact(keep 1)", "follower:engine-restart"}
+var evName = []string{"leader:put(new key)", "leader:put(a)", "leader:delete(a)", "leader:delete-range(a..)", "leader:toggle-txn", "leader:put(100KiB)", "follower:poll", "follower:recover-from-snapshot", "leader:snapshot+compact(keep 0)", "leader:snapshot+compact(keep 1)", "follower:engine-restart", "leader:advanced-reader-warms-log-cache-at-tail"}
 
 type Case struct {
 	Path     []int    `json:"path"`
@@ -370,6 +371,14 @@ func (p *pair) run(c Case) (vs []viol, outcome string, inconclusive string) {
 				time.Sleep(2 * time.Millisecond)
 			}
 			time.Sleep(5 * time.Millisecond) // LogCompacted event -> cache clear
+		case evWarmCache:
+			// what a second, more advanced follower would do: read the last two applied entries
+			c4, cancel4 := context.WithTimeout(ctx, 20*time.Second)
+			li, err := lt.LocalIndex(c4, true)
+			if err == nil && li.Index >= 2 {
+				_, _ = p.leader.LogReader.QueryRaftLog(c4, lt.ClusterID, dragonboat.LogRange{FirstIndex: li.Index - 1, LastIndex: li.Index + 1}, 1<<20)
+			}
+			cancel4()
 		case evRestartFollower:
 			old := p.follower
 			old.Close()
@@ -529,7 +538,7 @@ func Run(r *evid.Run) {
 		}
 		hasFollower := false
 		for _, e := range path {
-			if e >= evPoll {
+			if e >= evPoll && e != evWarmCache {
 				hasFollower = true
 			}
 		}
